@@ -187,30 +187,23 @@ class _GridUFuncSignature:
         identical, the signatures must not be equivalent. Axes positions do have to match exactly.
         """
 
-        def set_unique_inds(sig_part):
-            return set([i for arg in sig_part for i in arg])
+        def canonical(sig):
+            # number the dummy names in order of first appearance, keep the positions
+            numbering: Dict[str, int] = {}
+            parts = []
+            for names, positions in (
+                (sig.in_ax_names, sig.in_ax_positions),
+                (sig.out_ax_names, sig.out_ax_positions),
+            ):
+                parts.append(
+                    [
+                        [(numbering.setdefault(n, len(numbering)), p) for n, p in zip(arg_ns, arg_ps)]
+                        for arg_ns, arg_ps in zip(names, positions)
+                    ]
+                )
+            return parts
 
-        all_unique_sig1_indices = set_unique_inds(self.in_ax_names) | set_unique_inds(
-            self.out_ax_names
-        )
-        all_unique_sig2_indices = set_unique_inds(other.in_ax_names) | set_unique_inds(
-            other.out_ax_names
-        )
-
-        if len(all_unique_sig1_indices) != len(all_unique_sig2_indices):
-            return False
-
-        sig1_replaced = str(self)
-        sig2_replaced = str(other)
-        for dummy1, dummy2, common_replacement in zip(
-            all_unique_sig1_indices,
-            all_unique_sig2_indices,
-            self._REPLACEMENT_DUMMY_INDEX_NAMES,
-        ):
-            sig1_replaced = sig1_replaced.replace(dummy1, common_replacement)
-            sig2_replaced = sig2_replaced.replace(dummy2, common_replacement)
-
-        return sig1_replaced == sig2_replaced
+        return canonical(self) == canonical(other)
 
 
 def _parse_signature_from_string(
